@@ -85,6 +85,11 @@ class _Subst(ast.NodeTransformer):
             return copy.deepcopy(self.env[n.id])
         return n
 
+    def visit_Call(self, n):
+        if isinstance(n.func, ast.Name) and n.func.id == "__done__" and len(n.args) == 1:
+            return n.args[0]   # already expressed in the caller's terms (the value of a helper that was looked into): not substituted again
+        return self.generic_visit(n)
+
     def _comp(self, n):
         bound = {x.id for g in n.generators for x in ast.walk(g.target) if isinstance(x, ast.Name)}
         inner = _Subst(self.env, self.shadow | bound)
@@ -287,7 +292,22 @@ def path_summaries(f: FuncInfo, limit: int = 512, body: Optional[List[ast.stmt]]
             if isinstance(n, ast.IfExp):
                 first = n
                 break
-            if isinstance(n, (ast.Lambda, ast.ListComp, ast.SetComp, ast.DictComp, ast.GeneratorExp)):
+            if isinstance(n, (ast.Lambda, ast.ListComp, ast.SetComp, ast.DictComp, ast.GeneratorExp)) or is_pseudo(n, "__done__"):
+                continue
+            if isinstance(n, ast.Call) and n is not e:
+                ex2 = expand(n, env)
+                if ex2 is not None:
+                    # a helper looked into in the middle of the value (an element of a tuple / list, an argument): one continuation per return path of the helper
+                    res = []
+                    for c2, v in ex2:
+                        cc = conds
+                        for t_, tr_ in c2:
+                            cc = add(cc, t_, tr_) if cc is not None else None
+                        if cc is not None:
+                            res.extend(variants(_replace(e, n, call("__done__", v)), cc, env))
+                    return res
+            if isinstance(n, ast.BoolOp):
+                stack.append(n.values[0])   # later operands are evaluated conditionally
                 continue
             stack.extend(ast.iter_child_nodes(n))
         if first is None:
